@@ -8,21 +8,14 @@ From PW.corr Require Import C20_expected.
 Import ListNotations.
 Local Open Scope string_scope.
 
-Definition all_contracts : contracts := (expected ++ external_contracts)%list.
-
-(* every array argument a public callable documents is constrained by a shape check: of the callable itself,
-   or of the callee it hands the argument to (delegation table) *)
-Definition strict_row (na : string * list string) : bool :=
-  mem (fst na) not_modelled || forallb (covered all_contracts delegation (fst na)) (snd na).
-
-Lemma documented_contracts_strict_b : forallb strict_row documented_args = true.
+Lemma documented_arguments_are_checked_b : forallb strict_row documented_args = true.
 Proof. vm_compute. reflexivity. Qed.
 
-Lemma documented_contracts_strict name args a :
+Lemma documented_argument_is_checked name args a :
   In (name, args) documented_args -> In a args -> ~ In name not_modelled ->
   covered all_contracts delegation name a = true.
 Proof.
-  intros Hin Ha Hn. pose proof documented_contracts_strict_b as H.
+  intros Hin Ha Hn. pose proof documented_arguments_are_checked_b as H.
   rewrite forallb_forall in H. specialize (H _ Hin). unfold strict_row in H. simpl fst in H; simpl snd in H.
   apply orb_true_iff in H. destruct H as [H|H].
   - apply mem_In in H. contradiction.
@@ -38,8 +31,6 @@ Lemma delegation_rows_resolve :
 Proof. vm_compute. reflexivity. Qed.
 
 (* ---- for-all-k consequences for pairwise (stacked) callables ---------------------------------------------------- *)
-Definition sd_name := "polliwog.plane._plane_functions.signed_distance_to_plane".
-Definition cp_name := "polliwog.segment._segment_functions.closest_point_of_line_segment".
 
 Lemma sd_contract : contract_of expected sd_name =
   [CheckAny "points" [[DInt 3]; [DAny; DInt 3]] (Some "k");
@@ -79,10 +70,6 @@ Proof.
 Qed.
 
 (* ---- the Rodrigues vector is flattened before it is checked: off-contract shapes are accepted ----------------- *)
-Definition rv_name := "polliwog.transform._rodrigues.rodrigues_vector_to_rotation_matrix".
-(* documented: "a 3x1 or 1x3 Rodrigues vector" (and the plain 3-vector) *)
-Definition rv_documented : list shape := [[3]; [3; 1]; [1; 3]].
-Definition off_contract (doc : list shape) (s : shape) : Prop := ~ In s doc.
 
 Lemma rodrigues_flatten_accepts_off_contract :
   exists s, off_contract rv_documented s /\
@@ -92,3 +79,44 @@ Proof.
   - unfold off_contract, rv_documented. simpl. intros [H|[H|[H|[]]]]; discriminate.
   - vm_compute. reflexivity.
 Qed.
+
+(* ---- accepts EXACTLY the documented forms, over the finite universe of M_shape.universe ------------------------- *)
+Lemma accepts_delegates_spec cs ds args :
+  accepts_delegates (map (fun d => (contract_of cs (callee d), wiring d)) ds) args =
+  match run_delegates cs ds args with Ok _ => true | Raise _ => false end.
+Proof.
+  induction ds as [|d r IH]; cbn [map accepts_delegates run_delegates]; [reflexivity|].
+  destruct (run_contract (contract_of cs (callee d)) (wire (wiring d) args)); [exact IH|reflexivity].
+Qed.
+
+Lemma accepts_resolved_is_effective cs deleg b0 name args :
+  accepts_resolved (resolve cs deleg name) b0 args = accepts_effective cs deleg b0 name args.
+Proof.
+  unfold accepts_resolved, resolve, accepts_effective, run_effective. cbn [fst snd].
+  destruct (run_contract_from (contract_of cs name) args b0); [|reflexivity].
+  apply accepts_delegates_spec.
+Qed.
+
+Lemma contracts_accept_exactly_documented_forms_b : forallb forms_row documented_forms = true.
+Proof. vm_compute. reflexivity. Qed.
+
+(* lifted: for every registered callable outside the exemptions and every tuple of the universe, the effective
+   contract (own checks, then the delegates') accepts iff the shapes are one of the documented forms *)
+Lemma contracts_accept_exactly_documented_forms name fs t :
+  In (name, fs) documented_forms -> ~ In name forms_exempt ->
+  In t (tuples (names_of name) (universe (List.length (names_of name)))) ->
+  accepts_effective all_contracts delegation forms_b0 name (env_of t) = in_forms forms_b0 fs (env_of t).
+Proof.
+  intros Hin Hex Ht. pose proof contracts_accept_exactly_documented_forms_b as H.
+  rewrite forallb_forall in H. specialize (H _ Hin). unfold forms_row in H. cbn [fst snd] in H.
+  apply orb_true_iff in H. destruct H as [H|H]; [apply mem_In in H; contradiction|].
+  unfold forms_agree in H. rewrite forallb_forall in H. specialize (H _ Ht).
+  rewrite accepts_resolved_is_effective in H. apply eqb_prop in H. exact H.
+Qed.
+
+(* no golden contract uses a one-shape check_shape_any (whose failure would be an IndexError, see M_shape.any_fail) *)
+Fixpoint single_pattern_any (c : check) : bool :=
+  match c with CheckAny _ [_] _ => true | IfPresent _ c' => single_pattern_any c' | _ => false end.
+Lemma no_single_pattern_check_shape_any :
+  forallb (fun nc : string * list check => forallb (fun c => negb (single_pattern_any c)) (snd nc)) all_contracts = true.
+Proof. vm_compute. reflexivity. Qed.
